@@ -523,11 +523,12 @@ def check(repo):
                 f.rule = "R12.7"
                 r7.findings.append(f)
         if rr.id == "R10.1":
+            # an effect outside the state that licenses it (a state store, a durable write) is how a second connection - a queued client
+            # replaying its script, a retry - moves the accepted state backwards or replaces accepted data
             for f in rr.findings:
-                if "write_service_meta" in f.construct:
-                    f.rule = "R12.7"
-                    r7.findings.append(f)
-                    r7.obligations += 1
+                f.rule = "R12.7"
+                r7.findings.append(f)
+                r7.obligations += 1
 
     # ---------------------------------------------------------------- R12.3 identity after await
     for fi in coros:
